@@ -44,12 +44,15 @@ type BoundContract struct {
 	Locals      map[*types.Var]string
 	Requires    []ClauseExpr
 	Ensures     []ClauseExpr
+	Asserts     []ClauseExpr
 	Modifies    []ast.Expr
 	ModifiesAll bool
 	HasModifies bool
 	Inv         map[int][]ClauseExpr
 	Dec         map[int]ClauseExpr
 	LoopMod     map[int][]ast.Expr
+	LoopSplit   map[int][]ast.Expr
+	Split       []ast.Expr
 	Unroll      map[int]int
 	HasLoop     map[int]bool
 	Inline      bool
@@ -74,6 +77,7 @@ type specEnv struct {
 	vars map[*types.Var]Val
 	fr   *frame // frame whose locals the contract may mention (nil at call sites)
 	inOld bool
+	head *State // state at the head of the innermost loop iteration (for atHead())
 }
 
 func (u *Unit) newSpecEnv(bc *BoundContract, st, old *State, args []Val, results []Val) *specEnv {
@@ -95,6 +99,9 @@ func (u *Unit) newSpecEnv(bc *BoundContract, st, old *State, args []Val, results
 func (fr *frame) specEnv(bc *BoundContract, st *State) *specEnv {
 	env := fr.u.newSpecEnv(bc, st, fr.entry, fr.params, nil)
 	env.fr = fr
+	if n := len(fr.heads); n > 0 {
+		env.head = fr.heads[n-1]
+	}
 	return env
 }
 
@@ -160,6 +167,14 @@ func (u *Unit) constToVal(v constant.Value, t types.Type) Val {
 	panic(fmt.Sprintf("constant of type %s", t))
 }
 
+func isQuadParen(e ast.Expr) (ast.Expr, bool) {
+	p1, ok := e.(*ast.ParenExpr)
+	if !ok {
+		return nil, false
+	}
+	return isTripleParen(p1.X)
+}
+
 func isTripleParen(e ast.Expr) (ast.Expr, bool) {
 	p1, ok := e.(*ast.ParenExpr)
 	if !ok {
@@ -184,6 +199,14 @@ func (env *specEnv) eval(e ast.Expr) Val {
 	}
 	switch x := e.(type) {
 	case *ast.ParenExpr:
+		if inner, ok := isQuadParen(x); ok {
+			if env.head == nil {
+				panic("atHead() used outside a loop body")
+			}
+			sub := *env
+			sub.st = env.head
+			return sub.eval(inner)
+		}
 		if inner, ok := isTripleParen(x); ok {
 			if env.old == nil {
 				panic("old() used where no entry state exists")
@@ -531,7 +554,11 @@ func (env *specEnv) addr(e ast.Expr) (*Term, types.Type) {
 			if name, ok := env.bc.Locals[v]; ok && env.fr != nil {
 				a := env.fr.findLocal(name, v.Type())
 				if a != nil && !env.fr.isReg[a] {
-					return env.fr.vals[a].(*Term), v.Type()
+					at, ok := env.fr.vals[a].(*Term)
+					if !ok {
+						panic(StaleContract{fmt.Sprintf("%s: local %q is not allocated at this point", env.bc.FC.Key(), name)})
+					}
+					return at, v.Type()
 				}
 			}
 			if v.Parent() == v.Pkg().Scope() {
@@ -636,6 +663,23 @@ func (env *specEnv) callExpr(x *ast.CallExpr) Val {
 			lo, hi := env.to64(x.Args[0]), env.to64(x.Args[1])
 			fl := x.Args[2].(*ast.FuncLit)
 			pv := info.Defs[fl.Type.Params.List[0].Names[0]].(*types.Var)
+			if lo.IsConst() && hi.IsConst() && hi.Signed().Int64()-lo.Signed().Int64() <= 256 {
+				// small constant range: expand into ground instances
+				var parts []*Term
+				for i := lo.Signed().Int64(); i < hi.Signed().Int64(); i++ {
+					sub := *env
+					sub.vars = map[*types.Var]Val{}
+					for kk, vv := range env.vars {
+						sub.vars[kk] = vv
+					}
+					sub.vars[pv] = c.BVi(i, 64)
+					parts = append(parts, sub.evalBool(fl.Body.List[0].(*ast.ReturnStmt).Results[0]))
+				}
+				if name == "__forall" {
+					return c.And(parts...)
+				}
+				return c.Or(parts...)
+			}
 			k := c.BoundVar(pv.Name(), BV(64))
 			sub := *env
 			sub.vars = map[*types.Var]Val{}
@@ -665,6 +709,8 @@ func (env *specEnv) callExpr(x *ast.CallExpr) Val {
 			return c.Sub(a.Off, b.Off)
 		case "allocated":
 			return c.True
+		case "iteInt":
+			return c.Ite(env.evalBool(x.Args[0]), env.evalTerm(x.Args[1]), env.evalTerm(x.Args[2]))
 		case "typeIs":
 			iv := env.eval(x.Args[0]).(*IfaceV)
 			tn := constant.StringVal(info.Types[x.Args[1]].Value)
